@@ -358,6 +358,10 @@ func c14Exec(in c14In) *c14Outcome {
 				served[e.Tid] = hsize(e.A)
 			}
 		case gen.EvWriteConfig:
+			if hsize(e.B) <= hsize(e.A) {
+				// the client writes only when the file is in its past
+				o.Fail["config-monotone-and-final-max"] = fmt.Sprintf("thread %d tries to replace config head of size %d by size %d: %s", e.Tid, hsize(e.A), hsize(e.B), o.Trace)
+			}
 			if e.OK {
 				if hsize(e.B) < cfgNow {
 					o.Fail["config-monotone-and-final-max"] = fmt.Sprintf("config written back from size %d to %d: %s", cfgNow, hsize(e.B), o.Trace)
@@ -532,7 +536,7 @@ func c14Report(c *hx.Ctx, in c14In, o *c14Outcome) {
 func runC14(c *hx.Ctx) {
 	r := c.Rng
 	// exhaustive depth-first enumeration of the call-level schedules of 2 threads
-	nDFS, capDFS := 6, c.N(120)
+	nDFS, capDFS := 6, c.N(150)
 	for i := 0; i < nDFS; i++ {
 		scn := c14GenScn(rand.New(rand.NewSource(r.Int63())), true)
 		choices := []int{}
@@ -550,7 +554,7 @@ func runC14(c *hx.Ctx) {
 		}
 	}
 	// random schedules, 2-8 threads, 1-2 clients
-	for i := 0; i < c.N(900); i++ {
+	for i := 0; i < c.N(1200); i++ {
 		scn := c14GenScn(rand.New(rand.NewSource(r.Int63())), false)
 		m := 2 * len(scn.Lookups) * 12
 		choices := make([]int, m)
